@@ -1107,6 +1107,7 @@ class Context:
             JSUint8ClampedArray,
             JSArrayBuffer,
             JSArray,
+            JSTypedArray,
         )
 
         type_classes = {
@@ -1173,8 +1174,9 @@ class Context:
                     result._data[i] = result._coerce_value(val)
 
                 return result
-            elif isinstance(arg, JSArray):
-                # new Int32Array([1, 2, 3])
+            elif isinstance(arg, (JSArray, JSTypedArray)):
+                # new Int32Array([1, 2, 3]), new Int32Array(anotherTypedArray):
+                # a copy of the elements, converted to this element type
                 length = arg.length
                 result = array_class(length)
                 for i in range(length):
